@@ -407,3 +407,70 @@ Section Proofs.
     - destruct (callback_success_ok R1 I' Him) as (R2 & Es & _ & V2 & _). exists R2. split; [exact Es|congruence].
   Qed.
 End Proofs.
+
+(* ---------------------------------------------------------------- C14: netbuf_read_wait and refused allocations / registrations *)
+Section WaitFailure.
+  Variable grow : nat.
+
+  (* the allocation / registration outcomes that make netbuf_read_wait(R, k) return -1 *)
+  Definition wait_refused (R : nbr) (k : nat) (o : woracle) : Prop :=
+    (k <= avail R /\ wo_imm o = false) \/                       (* events_immediate_register refused *)
+    (avail R < k /\ ((r_buflen R < k /\ wo_alloc o = false) \/  (* the buffer must grow and malloc refused *)
+                     wo_read o = false)).                       (* network_read refused (cookie or registration) *)
+
+  Theorem wait_failure_lemma R k o R' a :
+    rinv R -> r_reading R = false -> r_imm R = false ->
+    nbr_wait grow R k o = Ok (R', a) ->
+    (wait_refused R k o <-> a = None) /\
+    (a = None -> rinv R' /\ view R' = view R /\ r_reading R' = false /\ r_imm R' = false).
+  Proof.
+    intros I Hr Hi H.
+    destruct (wait_ok_lemma grow R k o I Hr Hi) as (R2 & a2 & E & I' & V' & Ha).
+    rewrite H in E. inversion E; subst R2 a2. clear E.
+    split.
+    2:{ intros ->. cbn [act_ok] in Ha. destruct Ha. auto. }
+    unfold wait_refused, avail. unfold nbr_wait in H. rewrite Hr, Hi in H.
+    destruct (k <=? r_datalen R - r_bufpos R) eqn:Ek.
+    - apply Nat.leb_le in Ek. destruct (wo_imm o); inversion H; subst; split; intros X;
+        try discriminate; try (left; auto); auto.
+      destruct X as [(_ & X)|(X & _)]; [discriminate|lia].
+    - apply Nat.leb_gt in Ek.
+      assert (Hcomp : forall R1, rinv R1 -> exists R2,
+                 (if r_buflen R1 - r_bufpos R1 <? k then nbr_compact R1 else Ok R1) = Ok R2 /\ rinv R2).
+      { intros R1 I1. destruct (r_buflen R1 - r_bufpos R1 <? k).
+        - destruct (compact_ok R1 I1) as (R2 & E2 & I2 & _). eauto.
+        - eauto. }
+      assert (Hstart : forall R2 Rx ax, nbr_start_read R2 k o = Ok (Rx, ax) -> (wo_read o = false <-> ax = None)).
+      { intros R2 Rx ax. unfold nbr_start_read.
+        destruct (r_buflen R2 - r_datalen R2 =? 0); [discriminate|].
+        destruct (length (r_buf R2) <? r_datalen R2 + (r_buflen R2 - r_datalen R2)); [discriminate|].
+        destruct (wo_read o); cbn [negb]; intros X; inversion X; subst; split; congruence. }
+      destruct (r_buflen R <? k) eqn:Eb.
+      + apply Nat.ltb_lt in Eb. destruct (wo_alloc o) eqn:Ea.
+        * destruct (resize_ok grow R k I Ek) as (R1 & E1 & I1 & _). rewrite E1 in H.
+          destruct (Hcomp R1 I1) as (R2 & E2 & I2). rewrite E2 in H.
+          destruct (Hstart _ _ _ H) as (S1 & S2). split.
+          -- intros [(X & _)|(_ & [(_ & X)|X])]; [lia|discriminate|auto].
+          -- intros X. right. split; [lia|]. right. auto.
+        * unfold nbr_resize in H. cbn [negb] in H. inversion H; subst. split; [reflexivity|].
+          intros _. right. split; [lia|]. left. split; [lia|reflexivity].
+      + apply Nat.ltb_ge in Eb.
+        destruct (Hcomp R I) as (R2 & E2 & I2). rewrite E2 in H.
+        destruct (Hstart _ _ _ H) as (S1 & S2). split.
+        * intros [(X & _)|(_ & [(X & _)|X])]; [lia|lia|auto].
+        * intros X. right. split; [lia|]. right. auto.
+  Qed.
+End WaitFailure.
+
+(* non-vacuity: a reader holding 2 bytes; waits for 1 / 3 / 5000 bytes with one outcome refused *)
+Example wait_failure_instances :
+  let R := mkR ([7;8]%N ++ repeat 0%N 4094) 4096 0 2 false false in
+  rinv R /\
+  nbr_wait 2 R 1 (mkWO false true true) = Ok (R, None) /\
+  nbr_wait 2 R 3 (mkWO true true false) = Ok (R, None) /\
+  nbr_wait 2 R 5000 (mkWO true false true) = Ok (R, None) /\
+  exists R', nbr_wait 2 R 3 (mkWO false false true) = Ok (R', Some (WRead 2 4094 1)).
+Proof.
+  cbn zeta. split; [unfold rinv; cbn [r_bufpos r_datalen r_buflen r_buf]; rewrite app_length, repeat_length; cbn; lia|].
+  repeat split; try (vm_compute; reflexivity). eexists. vm_compute. reflexivity.
+Qed.
